@@ -164,9 +164,12 @@ class Report:
         spans = {}
         for q, (chg, tot, span) in self.edits.items():
             spans.setdefault(span[0], []).append((span[1], span[2], q, chg, tot))
+        known_keys = {(k["rule"], k["construct"], k.get("detail", "")) for k in self._known()[0] if k.get("property") == self.prop}
         for o in self.obs:
             if o.ok or o.robust or not o.loc or ":" not in o.loc:
                 continue
+            if o.key() in known_keys:
+                continue            # a listed finding stays a listed finding wherever the function's text moved
             rel, _, ln = o.loc.rpartition(":")
             if not ln.isdigit():
                 continue
